@@ -379,14 +379,26 @@ PROPS["C11"] = dict(mc=_dist_mc(), record=True, trace="Trace_C11", shards=12,
                "Trusted: TLC, Json module.",
     rule="impl->spec: one event per (matrix, background); distinct_nontrivial = distinct (matrix, background).",
     assumptions=["finite non-wildcard entries, wildcard column -inf with background frequency 0"])
-PROPS["C12"] = dict(mc=_dist_mc(), record=True, trace="Trace_Tfm", shards=12,
+def _tfm_mc():
+    return _dist_mc() + [
+        dict(name="MC_Tfm_g10", module="MC_Tfm", invariants=["RangeOK"], coverage=False, workers=6,   # -coverage exhausts the heap on the deeply recursive operators
+             constants=dict(GI=10, SeedFromRow0=False), quick=dict(MaxM=2, CellVals="{0, 1, 3, 6}"), thorough=dict(MaxM=3, CellVals="{0, 1, 3, 6}")),
+        dict(name="MC_Tfm_g100", module="MC_Tfm", invariants=["RangeOK"], coverage=False, workers=6,
+             constants=dict(GI=100, SeedFromRow0=False), quick=dict(MaxM=2, CellVals="{0, 2, 5}"), thorough=dict(MaxM=2, CellVals="{0, 1, 3, 6}")),
+        dict(name="MC_Tfm_neg_seed_row0", module="MC_Tfm", invariants=["RangeOK"], expect_violation="RangeOK", coverage=False,
+             constants=dict(GI=10, SeedFromRow0=True, MaxM=2, CellVals="{0, 2, 5}")),
+    ]
+PROPS["C12"] = dict(mc=_tfm_mc(), record=True, trace="Trace_Tfm", shards=12,
     level_text="Every refinement step of TfmPvalue::approximate_pvalue on real grid matrices (M = 2..6, uniform / dyadic / "
                "decimal backgrounds; scores below the minimum, above the maximum, attainable, just above an attainable "
                "value) is validated by TLC against the exact tail (D-layer convolution, model-checked against enumeration): "
                "0 <= pmin <= pmax <= 1, P(S >= s+(M+1)g) <= pmin, pmax <= P(S >= s-(M+2)g); the last step is the final p-value.",
-    level_note="The TFM-PVALUE algorithm itself (recompute / distribution / lookup) is not transcribed as an I-model: the "
-               "decisive oracle is the exact tail, as the property states it. Matrices with (K-1)^M beyond 4^6 and non-grid "
-               "matrices are not decided. Trusted: TLC, Json module.",
+    level_note="I-layer: TfmPvalue::{recompute, distribution, lookup_pvalue} transcribed in exact integer arithmetic (Tfm.tla) "
+               "and model-checked to satisfy the stated bounds for every small matrix / background / row permutation / score "
+               "at g = 1/10 and 1/100, with the originally coded seed of the running sum as negative control; the trace "
+               "specification also reports (advisory) when the real look-up differs from the I-model at g = 1/10. The decisive "
+               "oracle for the real code is the exact tail, as the property states it. Matrices with (K-1)^M beyond 4^6 and "
+               "non-grid matrices are not decided. Trusted: TLC, Json module.",
     rule="impl->spec: one event per (matrix, background, score) with all iterations; distinct_nontrivial = distinct queries.",
     assumptions=["at most 6 refinement steps are recorded per query (granularity down to 1e-6)"])
 PROPS["C13"] = dict(mc=_dist_mc(), record=True, trace="Trace_Tfm", shards=12,
